@@ -46,7 +46,7 @@ def showEnc (e : Encoder) : String :=
   s!"ET {e.dyn.size} {e.dyn.maxSize} {e.minSize} {e.maxSizeLimit} {if e.tableSizeUpdate then 1 else 0} {showEntries e.dyn.ents}"
 
 def showDec (d : Decoder) : String :=
-  s!"DT {d.dyn.size} {d.dyn.maxSize} {d.dyn.allowedMaxSize} {showEntries d.dyn.ents} {if d.firstField then 1 else 0}"
+  s!"DT {d.dyn.size} {d.dyn.maxSize} {d.dyn.allowedMaxSize} {showEntries d.dyn.ents} {if d.firstField then 1 else 0} {if d.emitEnabled then 1 else 0}"
 
 def head (e : Option PErr) : String :=
   match e with
@@ -56,6 +56,8 @@ def head (e : Option PErr) : String :=
 structure St where
   enc : Encoder
   dec : Decoder
+  /-- the emit callback is armed: at the next emitted field it calls `SetEmitEnabled(false)` -/
+  cbOff : Bool := false
 
 def parseFlag (s : String) : Option Bool :=
   if s == "0" then some false else if s == "1" then some true else none
@@ -79,9 +81,19 @@ def step (st : Option St) (line : String) : Option St × String :=
     | some n, some v, some sf =>
       let r := s.enc.writeField { name := n, value := v, sensitive := sf }
       let w := s.dec.write r.2
-      (some { enc := r.1, dec := w.1 },
+      -- one field per Write: "the callback disables emission when it sees the field" is
+      -- SetEmitEnabled(false) right after that Write
+      let fired := s.cbOff && !w.2.1.isEmpty
+      let dec1 := if fired then w.1.setEmitEnabled false else w.1
+      let w := (dec1, w.2)
+      (some { enc := r.1, dec := w.1, cbOff := s.cbOff && !fired },
        s!"{head w.2.2} B {hexOfBytes r.2} E {showEmits w.2.1} {showEnc r.1} {showDec w.1}")
     | _, _, _ => (st, "bad-op")
+  | ["emit", v], some s =>
+    match parseFlag v with
+    | some b => (some { s with dec := s.dec.setEmitEnabled b }, "ok")
+    | none => (st, "bad-op")
+  | ["cboff"], some s => (some { s with cbOff := true }, "ok")
   | ["end"], some s =>
     let r := s.dec.close
     (some { s with dec := r.1 }, s!"{head r.2} {showDec r.1}")
